@@ -220,7 +220,16 @@ func GenPlan(prop string, seed uint64, tier string) *Plan {
 	nkeys := 4 + r.Intn(5)
 	keys, hashes := keyNames(nkeys)
 	p.Keys = keys
-	backend := func() string { return "memory" }
+	// storage per node: mostly the in-memory store, for the data properties also the real
+	// append-only-log store on the simulated disk (leases and values must survive key transfer
+	// between different stores)
+	backend := func() string {
+		switch prop {
+		case "C03", "C05", "C19", "C10":
+			return pick(r, "memory", "memory", "aof")
+		}
+		return "memory"
+	}
 
 	n := 1 + r.Intn(maxN)
 	switch prop {
